@@ -88,9 +88,10 @@ Cases ==
       comp |-> [c1 |-> SameComp(o1, an), c2 |-> SameComp(o2, an)], mode |-> <<>>, same |-> TRUE]
         : o \in {x \in Orders : Len(x) = 2}, r \in RobotMaps, o1 \in {"true", "false"}, o2 \in {"true", "false"},
           an \in {"A", "int"}}
-    \cup {[order |-> <<"c1">>, robot |-> r, clslvl |-> cl.c, shadow |-> cl.s,
+    \* (am_y: an object stored under '<mode name>_y' - the prefix of an autonomous mode is its MODE_NAME, "am")
+    \cup {[order |-> <<"c1">>, robot |-> r @@ [am_y |-> ay], clslvl |-> cl.c, shadow |-> cl.s,
            comp |-> [c1 |-> k1, c2 |-> [attrs |-> <<>>, ctor |-> <<>>]], mode |-> m, same |-> FALSE]
-        : r \in RobotMaps, cl \in {[c |-> c, s |-> sdw] : c \in ClsLvl, sdw \in BOOLEAN} \ {[c |-> TRUE, s |-> TRUE]},
+        : r \in RobotMaps, ay \in {"missing", "A"}, cl \in {[c |-> c, s |-> sdw] : c \in ClsLvl, sdw \in BOOLEAN} \ {[c |-> TRUE, s |-> TRUE]},
           k1 \in One("c1"),
           m \in {CASE mo = "none" -> <<>> [] mo = "xA" -> <<Attr("x", "A", "no")>> [] mo = "c1" -> <<Attr("c1", "K1", "no")>>
                    [] mo = "yA" -> <<Attr("y", "A", "no")>> : mo \in ModeOpts}}
